@@ -1034,6 +1034,16 @@ def directed_structural():
     for x, y in [(3, 4), (4, 4)]:
         add("id", "(a b) (a c) -> a b c", [[x * 2, y * 3]], {"b": 2, "c": 3})
         add("sum", "(a 2) [(a 3)]", [[x * 2, y * 3]])
+    # (C) long per-repetition constraints (the constraint is rendered as text and parsed again inside the solver: long
+    # vectors, many digits) -- must behave like short ones
+    for api in ("solve_shapes", "solve_axes", "matches"):
+        add(api, "(r...)", [[1]], {"r": (1,) * 40})
+        add(api, "b (r...)", [[2, 2 ** 12]], {"r": (2,) * 12})
+        add(api, "b r...", [[2] + [3] * 30], {"r": (3,) * 30})
+        add(api, "(r s)...", [[200] * 20], {"r": (100,) * 20})
+        add(api, "(r s)...", [[200] * 20], {"r": (100,) * 19 + (7,)})
+    add("id", "(r...) -> r...", [[1]], {"r": (1,) * 40})
+    add("sum", "b [r...]", [[2] + [1] * 35], {"r": (1,) * 35})
     return out
 
 
